@@ -78,4 +78,21 @@ theorem C12_text (d : Directive) (lead g1 g2 g3 : List Nat) (path : List PChar) 
     exact ⟨hlead, ⟨hg1, hg2, hpath, hg3⟩, hterm⟩
   simpa using parse_full [] _ h
 
+/-- "paths resolve relative to the file containing the directive": an `%import` / `%include` that succeeds checked and
+read the path `dir(last source) / path` — the directory of the file being expanded, not of the top-level file nor the
+working directory — and the file it names becomes the last source while its own directives are resolved
+(in the model `baseDir prog` is the parent of `prog.sources.getLast`) -/
+theorem C12_relative_paths (fs : FS) (cwd : PathC) (fuel : Nat) (prog : Program) (path : String)
+    (tr : List Event) (ops : List RawOp) (tr' : List Event)
+    (h : resolveAndIngest fs cwd (fuel + 1) prog path tr = .ok (ops, tr')) :
+    ∃ r loc text,
+      r.check fs (cwd.join ((baseDir prog).join (PathC.ofString path))) = .ok loc ∧
+      preprocess fs cwd fuel { root := some r, sources := prog.sources ++ [(baseDir prog).join (PathC.ofString path)] } text
+        (tr ++ [.check (cwd.join ((baseDir prog).join (PathC.ofString path))) true] ++ [.read loc]) = .ok (ops, tr') ∧
+      baseDir prog = (match prog.sources.getLast? with
+        | some last => (last.parent).getD ⟨false, []⟩
+        | none => ⟨false, []⟩) := by
+  obtain ⟨r, loc, text, _, hc, hp⟩ := resolveAndIngest_step fs cwd fuel prog path tr ops tr' h
+  exact ⟨r, loc, text, hc, hp, rfl⟩
+
 end EtkVerif.C12
